@@ -495,8 +495,9 @@ Section Merge.
   Definition merged_call (has_count : bool) (count : Z) (ts : mcursor) : outcome (list bytes * mcursor) :=
     merged_pages (every_count has_count count (length ts)) ts.
 
-  (* the client: repeat until the merged cursor is empty *)
-  Fixpoint miterate (has_count : bool) (count : Z) (fuel : nat) (ts : mcursor) : list (list bytes) * status :=
+  (* the client: repeat until the merged cursor is empty; every reply = (keys, next merged cursor) *)
+  Fixpoint miterate (has_count : bool) (count : Z) (fuel : nat) (ts : mcursor)
+    : list (list bytes * mcursor) * status :=
     match fuel with
     | O => ([], OutOfFuel)
     | S f =>
@@ -505,8 +506,8 @@ Section Merge.
         | Panic => ([], Faulted)
         | Ok (items, mc) =>
             match mc with
-            | [] => ([items], Done)
-            | _ => let '(ps, st) := miterate has_count count f mc in (items :: ps, st)
+            | [] => ([(items, mc)], Done)
+            | _ => let '(ps, st) := miterate has_count count f mc in ((items, mc) :: ps, st)
             end
         end
     end.
@@ -518,9 +519,99 @@ Definition all_partitions (np : nat) (start : bytes) : mcursor := map (fun p => 
 (* SCAN/ADVSCAN (+REV) over a namespace of partitions with the stores dbs *)
 Definition merged_keys (compile : bytes -> option (bytes -> bool)) (fuel : nat) (dbs : list (list bytes))
            (d : dtype) (reverse : bool) (table start pat : bytes) (has_count : bool) (count : Z)
-  : list (list bytes) * status :=
+  : list (list bytes * mcursor) * status :=
   miterate (fun cnt p c => key_scan_command compile (nth p dbs []) d reverse (wrap_cursor table c) pat cnt)
            has_count count fuel (all_partitions (length dbs) start).
+
+(* ---------- server/scan_merge.go: the text of the merged cursor ---------- *)
+(* doMergeScan writes, decodeScanCursor reads: base64( pid ':' base64(cursor) ';' ... ). *)
+
+(* bytes.Split(s, sep) for a one-byte separator *)
+Fixpoint split_all (sep : N) (s : bytes) : list bytes :=
+  match s with
+  | [] => [[]]
+  | x :: r =>
+      if x =? sep then [] :: split_all sep r
+      else match split_all sep r with
+           | a :: l => (x :: a) :: l
+           | [] => [[x]]
+           end
+  end.
+
+(* bytes.TrimRight(s, string(sep)) *)
+Fixpoint trim_right (sep : N) (s : bytes) : bytes :=
+  match s with
+  | [] => []
+  | x :: r => match trim_right sep r with
+              | [] => if x =? sep then [] else [x]
+              | t => x :: t
+              end
+  end.
+
+Section CursorText.
+  (* not modelled: encoding/base64 StdEncoding and strconv.Itoa / Atoi *)
+  Variable b64 : bytes -> bytes.
+  Variable b64dec : bytes -> option bytes.
+  Variable itoa : nat -> bytes.
+  Variable atoi : bytes -> option nat.
+
+  (* doMergeScan: for every partition with a non-empty next cursor: pid ':' base64(cursor) ';' *)
+  Fixpoint cursor_segments (mc : mcursor) : bytes :=
+    match mc with
+    | [] => []
+    | (p, c) :: r => itoa p ++ scan_node_sep :: b64 c ++ scan_cursor_sep :: cursor_segments r
+    end.
+  (* the cursor text of the reply *)
+  Definition encode_mcursor (mc : mcursor) : bytes := b64 (cursor_segments mc).
+
+  (* the loop of decodeScanCursor over the ';'-separated pieces *)
+  Fixpoint decode_segments (pieces : list bytes) : outcome mcursor :=
+    match pieces with
+    | [] => Ok []
+    | c :: r =>
+        match split_all scan_node_sep c with
+        | [pid; enc] =>
+            match b64dec enc with
+            | None => Err
+            | Some cur =>
+                match atoi pid with
+                | None => Err
+                | Some p => match decode_segments r with
+                            | Ok l => Ok ((p, cur) :: l)
+                            | e => e
+                            end
+                end
+            end
+        | _ => Err
+        end
+    end.
+
+  (* server/scan_merge.go decodeScanCursor on the request key "table:cursortext":
+     (table, the partitions to ask with their cursors); the empty list = ask every partition from the start *)
+  Definition decode_scan_cursor (key : bytes) : outcome (bytes * mcursor) :=
+    match split_all scan_node_sep key with
+    | [table; enc] =>
+        match table with
+        | [] => Err
+        | _ =>
+            match enc with
+            | [] => Ok (table, [])
+            | _ =>
+                match b64dec enc with
+                | None => Err
+                | Some decoded =>
+                    match decode_segments (split_all scan_cursor_sep (trim_right scan_cursor_sep decoded)) with
+                    | Ok mc => Ok (table, mc)
+                    | Err => Err
+                    | Panic => Panic
+                    end
+                end
+            end
+        end
+    | _ => Err
+    end.
+End CursorText.
+
 
 (* ---------- the pattern class the correspondence check generates: literals, '*', '?' ---------- *)
 Definition star : N := 42.
